@@ -573,6 +573,110 @@ theorem run_cleared (o : Opts) : ∀ (l : List Bool) (s : St),
       have h1 : (step o s ok).1 = s1 := by rw [heq]
       exact run_cleared o rest s1 (h1 ▸ hs)
 
+/-! ### a call on an object that already holds results behaves like a call on a fresh object -/
+
+/-- the state `s2` of a call that started with `self.__results = prev` simulates the state `s`
+    of the same call on a fresh object -/
+structure Sim (prev : Option Rat) (s s2 : St) : Prop where
+  theta : s2.theta = s.theta
+  delta : s2.delta = s.delta
+  solves : s2.solves = s.solves
+  acc : s2.acc = (match s.acc with | some a => some a | none => prev)
+
+/-- the lemma: the stored results are only read when `theta > theta_start`, and then they have
+    been stored by this very call -/
+theorem seedOf_sim {o : Opts} {prev : Option Rat} {s s2 : St} (h : Inv o s) (hs : Sim prev s s2) :
+    seedOf o s2 = seedOf o s := by
+  unfold seedOf
+  rw [hs.theta]
+  by_cases hgt : s.theta > o.thetaStart
+  · have hne : s.solves ≠ [] := by
+      intro hnil; have := (h.first hnil).2.1; rw [this] at hgt; exact lt_irrefl _ hgt
+    obtain ⟨_, a, ha, _⟩ := h.later hne
+    have : s2.acc = some a := by rw [hs.acc, ha]
+    simp [hgt, ha, this]
+  · simp [hgt]
+
+theorem step_sim {o : Opts} {prev : Option Rat} {s s2 : St} (h : Inv o s) (hs : Sim prev s s2) (ok : Bool) :
+    (step o s2 ok).2 = (step o s ok).2 ∧ Sim prev (step o s ok).1 (step o s2 ok).1 := by
+  have hseed := seedOf_sim h hs
+  have hth := hs.theta
+  have hdl := hs.delta
+  have hpush : ∀ b, Sim prev (push o s b) (push o s2 b) := by
+    intro b
+    exact ⟨by simpa using hth, by simpa using hdl, by simp [hth, hdl, hseed, hs.solves], by simpa using hs.acc⟩
+  cases ok
+  · by_cases h0 : s.theta = o.thetaStart
+    · have h0' : s2.theta = o.thetaStart := by rw [hth]; exact h0
+      rw [step_false_first h0, step_false_first h0']
+      exact ⟨rfl, hpush false⟩
+    · have h0' : s2.theta ≠ o.thetaStart := by rw [hth]; exact h0
+      by_cases hd : s.delta / 2 < o.deltaMin
+      · have hd' : s2.delta / 2 < o.deltaMin := by rw [hdl]; exact hd
+        rw [step_false_min h0 hd, step_false_min h0' hd']
+        refine ⟨rfl, ⟨?_, ?_, ?_, ?_⟩⟩
+        · simp [hth, hdl]
+        · simp [hdl]
+        · simpa using (hpush false).solves
+        · simpa using hs.acc
+      · have hd' : ¬ s2.delta / 2 < o.deltaMin := by rw [hdl]; exact hd
+        rw [step_false_cont h0 hd, step_false_cont h0' hd']
+        refine ⟨rfl, ⟨?_, ?_, ?_, ?_⟩⟩
+        · rw [advance_theta, advance_theta]; simp [hth, hdl]
+        · rw [advance_delta, advance_delta]; simp [hth, hdl]
+        · simpa using (hpush false).solves
+        · simpa using hs.acc
+  · by_cases h1 : 1 ≤ s.theta
+    · have h1' : 1 ≤ s2.theta := by rw [hth]; exact h1
+      rw [step_true_ge h1, step_true_ge h1']
+      refine ⟨rfl, ⟨?_, ?_, ?_, ?_⟩⟩
+      · simpa using hth
+      · simpa using hdl
+      · simpa using (hpush true).solves
+      · simp [hth]
+    · have h1' : ¬ 1 ≤ s2.theta := by rw [hth]; exact h1
+      rw [step_true_lt (not_le.1 h1), step_true_lt (not_le.1 h1')]
+      refine ⟨rfl, ⟨?_, ?_, ?_, ?_⟩⟩
+      · rw [advance_theta, advance_theta]; simp [hth, hdl]
+      · rw [advance_delta, advance_delta]; simp [hth, hdl]
+      · simpa using (hpush true).solves
+      · simp [hth]
+
+theorem run_sim (o : Opts) (prev : Option Rat) : ∀ (l : List Bool) (s s2 : St), Inv o s → Sim prev s s2 →
+    (run step o s2 l).2 = (run step o s l).2 ∧ Sim prev (run step o s l).1 (run step o s2 l).1
+  | [], s, s2, _, hs => ⟨rfl, hs⟩
+  | ok :: rest, s, s2, h, hs => by
+    obtain ⟨hst, hsim⟩ := step_sim h hs ok
+    rw [run, run]
+    cases hr : step o s ok with
+    | mk s' st =>
+      cases hr2 : step o s2 ok with
+      | mk s2' st2 =>
+        rw [hr, hr2] at hst hsim
+        simp only at hst hsim
+        subst hst
+        cases st2 with
+        | finished b => exact ⟨rfl, hsim⟩
+        | running => exact run_sim o prev rest s' s2' (step_running h hr).1 hsim
+
+theorem seqFrom_length (stp : Opts → St → Bool → St × Status) :
+    ∀ (runs : List (Opts × List Bool)) (prev : Option Rat), (seqFrom stp prev runs).length = runs.length
+  | [], _ => rfl
+  | (o, l) :: rest, prev => by simp [seqFrom, seqFrom_length stp rest]
+
+theorem seqFrom_get (stp : Opts → St → Bool → St × Status) :
+    ∀ (runs : List (Opts × List Bool)) (prev : Option Rat) (i : Nat) (hi : i < runs.length),
+      ∃ pv, (seqFrom stp prev runs)[i]'(by rw [seqFrom_length]; exact hi)
+        = optimizeFromWith stp runs[i].1 pv runs[i].2
+  | [], _, i, hi => by simp at hi
+  | (o, l) :: rest, prev, 0, _ => ⟨prev, by simp [seqFrom]⟩
+  | (o, l) :: rest, prev, i + 1, hi => by
+    obtain ⟨pv, h⟩ := seqFrom_get stp rest
+      (match optimizeFromWith stp o prev l with | some (s, _) => s.acc | none => prev) i (by simpa using hi)
+    refine ⟨pv, ?_⟩
+    simp only [seqFrom, List.getElem_cons_succ]
+    exact h
+
 /-- `optimize` either raises (theta_start > 1) or is the run of the loop from the initial state -/
 theorem optimize_some {o : Opts} {l : List Bool} {s : St} {r : Option Bool}
     (h : optimize o l = some (s, r)) :
